@@ -12,7 +12,7 @@ import sqlite3
 
 from vf import core, monitors
 from vf.gen import fedgen, selgen
-from vf.ref.plan_interp import MissingTable, Interp, NotInterpretable
+from vf.ref.plan_interp import MissingTable, Interp, NotInterpretable, UnknownName
 
 ID = 'C08'
 LEVEL = 'translation_validation'
@@ -101,6 +101,12 @@ def compare(text, ordered, kw, state, limit_mode=None):
                 # and the CTE's body reads ANOTHER integration's table, which the asked integration is now expected to have
                 kind = 'fetch-carries-a-with-clause-whose-body-reads-another-integration'
             return 'differ', {'kind': kind, 'expected': exp, 'got': msg[:300], 'log': log, 'plan': plan}
+        except UnknownName as e:
+            # a step names a column that none of its inputs has.  When the name occurs nowhere in the statement either, the planner made it
+            # up (a sub-query replaced by a placeholder name that nothing defines): no executor can carry that step out
+            if not re.search(rf'(?i)(?<![\w`]){re.escape(str(e.name))}(?![\w`])', text):
+                return 'differ', {'kind': 'step-names-something-that-exists-nowhere', 'expected': exp, 'got': str(e)[:200], 'log': log, 'plan': plan}
+            return 'skip:not-interpretable', str(e)[:160]
         except NotInterpretable as e:
             return 'skip:not-interpretable', str(e)[:160]
         kinds = sorted({k for k, _, _ in log})
@@ -323,6 +329,9 @@ def run_shard(ctx):
         elif i % 20 == 15:
             text, ordered, feats = fedgen.derived_join(r), False, {'nested-select-joined-across-integrations'}
             acc.count('derived_join_shapes')
+        elif i % 40 == 21:
+            text, ordered, feats = fedgen.subquery_in_on(r), False, {'subquery-in-on-clause'}
+            acc.count('subquery_in_on_shapes')
         elif i % 20 == 1:
             text, ordered, feats = fedgen.join_chain(r), False, {'join-chain-same-named-keys'}
             acc.count('join_chain_shapes')
